@@ -458,13 +458,19 @@ def checkVlenLoop (vlenMax : Nat) : List Nat → Nat → Bool
 def checkVlen (xsz : Nat) (shape : List Nat) (vlenMax : Nat) : Bool :=
   checkVlenLoop vlenMax (if isRecShape shape then shape.drop 1 else shape) xsz
 
+/-- the right-to-left product loop of ncmpio_NC_var_shape64 for ndims > 1:
+    `product = shape[ndims-1]; for (i = ndims-2; i >= 0; i--) if (shape[i] != NC_UNLIMITED) product *= shape[i]` -/
+def prodR : List Nat → Nat
+  | [] => 1
+  | [s] => s
+  | s :: t => (if s ≠ 0 then s else 1) * prodR t
+
 /-- `product` of ncmpio_NC_var_shape64 -/
 def shapeProduct (shape : List Nat) : Nat :=
   match shape with
   | [] => 1
   | [s0] => if s0 = 0 then 1 else s0
-  | _ => (shape.reverse.foldl (fun (acc : Nat × Bool) s =>
-            if acc.2 then (s, false) else (if s ≠ 0 then acc.1 * s else acc.1, false)) (1, true)).1
+  | _ => prodR shape
 
 /-- dsizes[0] of ncmpio_NC_var_shape64 -/
 def dsizes0 (shape : List Nat) : Nat :=
@@ -509,25 +515,30 @@ def cvsLoop (dims : List Dim) : List Var → CvsState → Except Err CvsState
           firstVar := (match st.firstVar with | none => some v.begin | some x => some x)
           beginRec := v.begin + len }
 
+/-- the `if (first_rec != NULL)` block of compute_var_shape: (begin_rec, recsize) -/
+def cvsRec (st : CvsState) : Except Err (Nat × Nat) :=
+  match st.firstRec with
+  | none => .ok (st.beginRec, st.recsize)
+  | some (fbegin, flen, fpacked) =>
+    if st.beginRec > fbegin then .error .enotnc
+    else .ok (fbegin, if st.recsize = flen then fpacked else st.recsize)
+
+/-- the end of compute_var_shape: begin_var and the four sanity tests -/
+def cvsFinish (xsz : Nat) (st : CvsState) : Except Err (Nat × Nat × Nat × List (List Nat) × List Nat) :=
+  match cvsRec st with
+  | .error e => .error e
+  | .ok (beginRec, recsize) =>
+    let beginVar := match st.firstVar with | some b => b | none => beginRec
+    if beginVar ≤ 0 ∨ xsz > beginVar ∨ beginRec ≤ 0 ∨ beginVar > beginRec then .error .enotnc
+    else .ok (beginVar, beginRec, recsize, st.shapes, st.lens)
+
 /-- compute_var_shape: (begin_var, begin_rec, recsize, shapes, lens).  With no variable the C
     leaves begin_var / begin_rec / recsize as calloc made them (0). -/
 def computeVarShape (h : Hdr) (xsz : Nat) : Except Err (Nat × Nat × Nat × List (List Nat) × List Nat) :=
   if h.vars.length = 0 then .ok (0, 0, 0, [], []) else
   match cvsLoop h.dims h.vars { beginRec := xsz, recsize := 0, firstVar := none, firstRec := none, shapes := [], lens := [] } with
   | .error e => .error e
-  | .ok st =>
-    let r : Except Err (Nat × Nat) :=
-      match st.firstRec with
-      | none => .ok (st.beginRec, st.recsize)
-      | some (fbegin, flen, fpacked) =>
-        if st.beginRec > fbegin then .error .enotnc
-        else .ok (fbegin, if st.recsize = flen then fpacked else st.recsize)
-    match r with
-    | .error e => .error e
-    | .ok (beginRec, recsize) =>
-      let beginVar := match st.firstVar with | some b => b | none => beginRec
-      if beginVar ≤ 0 ∨ xsz > beginVar ∨ beginRec ≤ 0 ∨ beginVar > beginRec then .error .enotnc
-      else .ok (beginVar, beginRec, recsize, st.shapes, st.lens)
+  | .ok st => cvsFinish xsz st
 
 /-- first pass / second pass of ncmpio_NC_check_vlens over the variables of one kind:
     returns (number of too-large variables, was the last one too large) -/
